@@ -249,3 +249,40 @@ func c10Run(kv kvi.KVInterface, tag string) {
 	}
 	vReach("c10." + tag + ".read")
 }
+
+// c10Volume: DeletePrefix works in blocks (deleteBlockSize keys per pass in the
+// Badger, LevelDB and Pebble adapters). Key counts around one and two blocks,
+// bracketed by keys just outside the prefix: afterwards no key under the prefix is
+// left and every other key is. In the engine the block constant is executed scaled
+// down (const_rewrite, stated in the evidence); natively the real block size is used.
+func c10Volume(kv kvi.KVInterface, tag string) {
+	id := func(s string) string { return "C10." + tag + "." + s }
+	blk := vParam("NATIVE_BLOCK", vParam("BLOCK", 4))
+	sizes := []int{0, 1, blk - 2, blk - 1, blk, blk + 1, 2*blk - 2, 2*blk - 1, 2 * blk, 2*blk + 1, 3*blk + 1}
+	n := sizes[vChoice("keys", len(sizes))]
+	key := func(i int) []byte { return []byte{'p', byte(i >> 16), byte(i >> 8), byte(i)} }
+	err := kv.BulkWrite(func(bl kvi.KVBulkWrite) error {
+		bl.Set([]byte("o"), []byte{1})
+		bl.Set([]byte("o\xff"), []byte{1})
+		for i := 0; i < n; i++ {
+			bl.Set(key(i), []byte{2})
+		}
+		bl.Set([]byte("q"), []byte{3})
+		return nil
+	})
+	vAssert(id("volume.load-ok"), err == nil)
+	if vChoice("prefix-is-a-key", 2) == 1 {
+		vAssert(id("volume.load-ok"), kv.Set([]byte("p"), []byte{4}) == nil)
+	}
+	vAssert(id("volume.deleteprefix-ok"), kv.DeletePrefix([]byte("p")) == nil)
+	var left [][]byte
+	kv.View(func(it kvi.KVIterator) error {
+		for it.Seek([]byte("o")); it.Valid(); it.Next() {
+			left = append(left, append([]byte{}, it.Key()...))
+		}
+		return nil
+	})
+	vReach("c10." + tag + ".volume")
+	vAssert(id("volume.prefix-emptied"), len(left) == 3 && string(left[0]) == "o" && string(left[1]) == "o\xff" && string(left[2]) == "q")
+	vAssert(id("volume.last-key-gone"), n == 0 || !kv.HasKey(key(n-1)))
+}
